@@ -47,7 +47,8 @@ MkEv(a, ch, idx, d, c, res, out, ind, pin, s2, r2, w2, rinc2, n1, n2) ==
     S |-> [until |-> SUntil(s2, C), can |-> SCan(s2)],
     R |-> [until |-> RUntil(r2, C), can |-> RCan(r2)] ]
 
-Act(a, ch, idx, d, c) == [a |-> a, ch |-> ch, i |-> idx, d |-> d, c |-> c]
+\* compact form of an action for the emitted scripts: <<action, channel, index or seconds, command>>
+Act(a, ch, idx, d, c) == <<a, ch, idx + d, c>>
 
 \* common tail of every action: record the event, observe, remember the action
 Finish(e, act) ==
